@@ -1,6 +1,8 @@
 import Driver.C06
 import Driver.C17
 import Driver.C14
+import Driver.C12
+import Driver.C10
 open Lean CKT CKT.Driver
 
 def dispatch (j : Json) : Except String Json := do
@@ -8,6 +10,8 @@ def dispatch (j : Json) : Except String Json := do
   if op.startsWith "c06." then c06 op j
   else if op.startsWith "c17." then c17 op j
   else if op.startsWith "c14." then c14 op j
+  else if op.startsWith "c12." then c12 op j
+  else if op.startsWith "c10." then c10 op j
   else throw s!"unknown op {op}"
 
 def handle (line : String) : String :=
